@@ -206,6 +206,8 @@ type inst struct {
 var subSchemas = []string{
 	`{}`, `{"nullable":true}`, `{"type":"string"}`, `{"type":"integer"}`, `{"type":"number"}`, `{"type":"boolean"}`,
 	`{"type":"object"}`, `{"enum":[1]}`, `{"minimum":2}`, `{"maxLength":1}`, `{"required":["a"]}`, `{"not":{}}`,
+	// members that declare or forbid properties: what one member declares says nothing to its siblings
+	`{"properties":{"a":{"type":"string"}}}`, `{"additionalProperties":false}`,
 }
 
 func instances() []inst {
